@@ -16,10 +16,12 @@
                         __skip_this(thing, new_parent), the equality shortcut
                         (report and do not descend), else __search;
     - [search_str], [search_numbers], [search_obj_atom] = the leaf comparers.
-    TypeErrors raised by mixing str and bytes (`'a' in b'abc'`, a bytes
-    pattern on a str) are modelled as the event [EvRaise]: the constructor
-    raises iff some visited location produces one (the traversal order is
-    irrelevant for that).
+    Since /repo commits 9553299 / 49764d9 a str item (or str pattern) is simply
+    not found in a bytes leaf and vice versa, and a bytes pattern never matches
+    a path text.  The one TypeError left - a bytes pattern applied to str(number)
+    in __search_numbers when strict_checking is off - is modelled as the event
+    [EvRaise]: the constructor raises iff some visited location produces one
+    (the traversal order is irrelevant for that).
 
     Paths are key sequences; [render] is the text search.py builds itself with
     "%s[%s]" % (parent, key) / "'%s'" % key.
@@ -160,15 +162,16 @@ Section Search.
     Definition search_str (isb : bool) (s : pystr) (p : path) : list event :=
       let txt := fold_s s in
       let hit := [EvValue p (VAtom (if isb then ABytes s else AStr s))] in
+      (* `if isinstance(wanted, (str, bytes)) and not isinstance(obj, type(wanted)): return` *)
       let plain (ib : bool) (i : pystr) : list event :=
-        if match_string c
-        then (if Bool.eqb ib isb && pystr_eqb i txt then hit else [])
-        else (if Bool.eqb ib isb
-              then (if contains_sub i txt then hit else [])
-              else [EvRaise])                 (* 'a' in b'abc' / b'a' in 'abc' *)
+        if Bool.eqb ib isb
+        then (if match_string c
+              then (if pystr_eqb i txt then hit else [])
+              else (if contains_sub i txt then hit else []))
+        else []
       in
       match it with
-      | ERe b => if Bool.eqb b isb then (if re_search txt then hit else []) else [EvRaise]
+      | ERe b => if Bool.eqb b isb then (if re_search txt then hit else []) else []
       | EAtom (AStr i) => plain false i
       | EAtom (ABytes i) => plain true i
       | EAtom _ | EVal _ => []
@@ -192,9 +195,8 @@ Section Search.
          || (negb (match_string c) && contains_sub item_text txt)
       then hit
       else match it with
-           | ERe false => if re_search txt then hit else []
-           | ERe true => [EvRaise]            (* bytes pattern .search(path text) *)
-           | EAtom _ | EVal _ => []
+           | ERe false => if re_search txt then hit else []   (* isinstance(item.pattern, str) and ... *)
+           | ERe true | EAtom _ | EVal _ => []
            end.
 
     (* __search_obj on None, and on a str / bytes when the item is None or a
